@@ -199,7 +199,7 @@ func C15(run *vf.Run) {
 			pmIdx = k
 		}
 	}
-	fileOp, err1 := operators.Get("pmFromFile", plugintypes.OperatorOptions{Arguments: "words.txt", Root: fstest.MapFS{"words.txt": &fstest.MapFile{Data: []byte("ab\n   \n\t\n# a comment\n  # an indented comment\n  Aa  \n\n")}}})
+	fileOp, err1 := operators.Get("pmFromFile", plugintypes.OperatorOptions{Arguments: "words.txt", Path: []string{"."}, Root: fstest.MapFS{"words.txt": &fstest.MapFile{Data: []byte("ab\n   \n\t\n# a comment\n  # an indented comment\n  Aa  \n\n")}}})
 	dsOp, err2 := operators.Get("pmFromDataset", plugintypes.OperatorOptions{Arguments: "ds", Datasets: map[string][]string{"ds": {"ab", "Aa"}}})
 	if err1 != nil || err2 != nil || pmIdx < 0 {
 		run.Inconclusive("pmFromFile / pmFromDataset rejected: %v %v", err1, err2)
